@@ -61,8 +61,9 @@ FnArgs == IF Thorough
           ELSE {<<IntT(7), IntT(2)>>, <<X, IntT(2)>>, <<Flt(3, -1), IntT(2)>>}
 FnTerms == {Fn(op, args) : op \in {"add", "subtract", "multiply", "divide"}, args \in FnArgs}
       \cup {Fn("join", <<a, b>>), Fn("join", <<a, Atom(","), b>>), Fn("join", <<X, b>>),
-            Fn("join", <<Lst(<<a, b>>), Atom("!")>>), Fn("join", <<IntT(1), a>>)}
-FnOthers == {X, Y, Z, Anon, a, b, Atom("a b"), Atom("a, b"), Atom("a b!"), Atom("1 a"),
+            Fn("join", <<Lst(<<a, b>>), Atom("!")>>), Fn("join", <<IntT(1), a>>),
+            Fn("join", <<Lst(<<X, b>>), a>>), Fn("join", <<LstT(<<b>>, X)>>)}
+FnOthers == {X, Y, Z, Anon, a, b, Atom("a b"), Atom("a, b"), Atom("a b!"), Atom("1 a"), Atom("a b a"), Atom("b a?"),
              IntT(1), IntT(2), IntT(3), IntT(5), IntT(9), IntT(14), IntT(-1), Flt(7, -1), Flt(3, 0),
              Flt(3, -2), IntT(36), IntT(1), Cx("f", <<a>>), Lst(<<a>>), EmptyList}
            \cup FnTerms
@@ -94,6 +95,7 @@ PriorMore ==
     P(Cx("f", <<Anon>>), NoT, NoT), P(Lst(<<a, Anon>>), NoT, NoT), P(Y, Lst(<<Z>>), b) }
 PriorPlain == IF Thorough THEN PriorQuick \cup PriorMore ELSE PriorQuick
 PriorFn    == { P(NoT, NoT, NoT), P(IntT(5), NoT, NoT), P(Y, IntT(3), NoT), P(a, NoT, NoT),
+                P(Lst(<<a, Atom("?")>>), NoT, NoT),
                 P(NoT, IntT(3), NoT), P(Flt(3, -1), NoT, NoT) }
 PriorLaws  == { P(NoT, NoT, NoT), P(a, NoT, NoT), P(Y, NoT, NoT), P(NoT, X, NoT),
                 P(Cx("f", <<Y>>), NoT, NoT), P(NoT, Lst(<<a>>), NoT), P(LstT(<<a>>, Y), NoT, NoT) }
